@@ -290,6 +290,28 @@ mutual
     | .fin _ => []
 end
 
+mutual
+  /-- Every node occurrence of a program (selected or not) together with, for each enclosing
+      clause (innermost first), whether that clause is the selected one of its block: the first
+      true `@case`, or `@else` when no `@case` is true.  `done` = an earlier clause of the block
+      is true. -/
+  def Item.occ (pre : List String) (sel : List Bool) : Item → List (List Bool × Eff)
+    | .node n m v => [(sel, ⟨pre ++ [n], m, v⟩)]
+    | .group n _ body => body.occ (pre ++ [n]) sel
+    | .block c _ body more => body.occ pre (c :: sel) ++ more.occ pre sel c
+  def Items.occ (pre : List String) (sel : List Bool) : Items → List (List Bool × Eff)
+    | .nil => []
+    | .cons i rest => i.occ pre sel ++ rest.occ pre sel
+  def Chain.occ (pre : List String) (sel : List Bool) (done : Bool) : Chain → List (List Bool × Eff)
+    | .case c _ body more => body.occ pre ((c && !done) :: sel) ++ more.occ pre sel (done || c)
+    | .els _ body _ => body.occ pre ((!done) :: sel)
+    | .fin _ => []
+end
+
+/-- The occurrences all of whose enclosing clauses are selected. -/
+def selectedOnly (l : List (List Bool × Eff)) : List Eff :=
+  (l.filter (fun x => x.1.all id)).map (fun x => x.2)
+
 def Items.append : Items → Items → Items
   | .nil, b => b
   | .cons i r, b => .cons i (r.append b)
